@@ -128,6 +128,12 @@ func (gc *GarbageCollector) GarbageCollectWatchesNow(ctx context.Context) error 
 
 	stop := make([]engine.WatchID, 0)
 	for _, wid := range running {
+		// Only composed resource watches are eligible for garbage collection.
+		// The controller's other watches (e.g. of the XRs themselves and of
+		// CompositionRevisions) must keep running.
+		if wid.Type != engine.WatchTypeComposedResource {
+			continue
+		}
 		if !used[wid] {
 			stop = append(stop, wid)
 		}
